@@ -90,9 +90,6 @@ pub fn check(ctor: u64, ops: &[u64], acc: &mut Acc) -> Result<(), Mismatch> {
         }
         observe(&v, &m, &format!("after step {i}"))?;
     }
-    if m.len() >= 3 {
-        acc.nontrivial();
-    }
     // `is_empty` is documented as "returns whether the vector is non-empty, which it always is" and
     // returns true; recorded as an outcome class, not judged (the property does not speak about it).
     acc.class(if v.is_empty() { "nevec is_empty() = true on a non-empty vector (as documented)" } else { "nevec is_empty() = false" });
